@@ -329,14 +329,15 @@ Section DCE.
              match get_node m k with
              | None => loop rest m
              | Some n =>
-               if forallb (fun o => negb (memN o gouts) && negb (has_uses m o)) (n_outs n)
+               (* `output in graph_outputs or output.uses()`: on valid models (outputs local to their
+                  graph, checked by outputs_localb) "is an output of this graph" = "is a graph output" *)
+               if forallb (fun o => negb (is_graph_output m o) && negb (has_uses m o)) (n_outs n)
                then loop rest (remove_node k m)
                else
-                 let n1 := trim_node n in
-                 let m1 := update_node k (fun _ => n1) m in
-                 let n2 := trim_outputs sc unnamed has_opset m1 gouts n1 in
-                 let m2 := update_node k (fun _ => n2) m1 in
-                 let m3 := fold_left (fun m sg => dce_graph f (GSub sg) m) (attr_graphs (n_attrs n2)) m2 in
+                 let m1 := update_node k trim_node m in
+                 let m2 := update_node k (trim_outputs sc unnamed has_opset m1 gouts) m1 in
+                 let m3 := fold_left (fun m sg => dce_graph f (GSub sg) m)
+                                     (attr_graphs (n_attrs (trim_outputs sc unnamed has_opset m1 gouts (trim_node n)))) m2 in
                  loop rest m3
              end
            end) (rev (map node_key (g_nodes g0))) m
@@ -511,7 +512,7 @@ Definition dedup_graph_loop (size_limit : Z) (r : gref) : list (vid * tensor) ->
       else match find (fun wt => tensor_eqb (snd wt) t) seen with
            | Some (w, _) =>
              let m1 := replace_uses false v w m in
-             loop rest seen (upd_gref r (fun g => set_inits g (filter (fun vt => negb (N.eqb (fst vt) v)) (g_inits g))) m1)
+             loop rest seen (map_graphs (fun g => set_inits g (filter (fun vt => negb (N.eqb (fst vt) v)) (g_inits g))) m1)
            | None => loop rest (seen ++ [(v, t)]) m
            end
     end.
@@ -564,7 +565,7 @@ Definition try_lift_constant (lift_all : bool) (size_limit : Z) (other : list (v
       match lift_tensor lift_all size_limit other k name a with
       | None => st
       | Some t =>
-        let m1 := upd_gref (fst rk) (fun g => set_inits g (g_inits g ++ [(fresh, t)])) m in
+        let m1 := map_graphs (fun g => if existsb (has_key k) (g_nodes g) then set_inits g (g_inits g ++ [(fresh, t)]) else g) m in
         let m2 := replace_uses false y fresh m1 in
         (remove_node k m2, fresh + 1)
       end
